@@ -90,6 +90,16 @@ class Linear(Transform):
             self.cache.invalidate()
         return super().train(mode)
 
+    def _load_from_state_dict(self, *args, **kwargs):
+        # New parameter values make the cached matrices stale.
+        self.cache.invalidate()
+        super()._load_from_state_dict(*args, **kwargs)
+
+    def _apply(self, fn, *args, **kwargs):
+        # dtype / device conversions replace the parameters; the cache must follow.
+        self.cache.invalidate()
+        return super()._apply(fn, *args, **kwargs)
+
     def use_cache(self, mode=True):
         if not check.is_bool(mode):
             raise TypeError("Mode must be boolean.")
